@@ -635,7 +635,7 @@ func ruleC10_8(c *Ctx) {
 			continue
 		}
 		rt := namedOf(derefType(fn.Signature.Recv().Type()))
-		if rt == nil || rt.Obj().Name() != "Logger" || rt.Obj().Pkg().Path() != c.A.internalPath {
+		if rt == nil || rt.Obj().Pkg().Path() != c.A.internalPath || !isLoggerType(rt) {
 			continue
 		}
 		n++
@@ -650,7 +650,7 @@ func ruleC10_8(c *Ctx) {
 		if isTestOnly(c, fn) || len(fn.Blocks) == 0 || fn.Synthetic != "" {
 			continue
 		}
-		if fn.Name() == "LogValue" && fn.Signature.Recv() != nil || (c.A.Reach[fn] && (fn.Name() == "MakeMisc" || fn.Name() == "MakeLog")) {
+		if fn.Name() == "LogValue" && fn.Signature.Recv() != nil {
 			n++
 			names = append(names, c.P.ShortName(fn))
 			if why := c.An.EffectFree(fn); why != "" {
@@ -930,4 +930,13 @@ func cycleCounts(fn *ssa.Function, head, tail *ssa.BasicBlock, count map[int]int
 		}
 	}
 	return false
+}
+
+// isLoggerType: a struct whose only field is a log/slog.Handler (the cache's logger wrapper).
+func isLoggerType(n *types.Named) bool {
+	st, ok := n.Underlying().(*types.Struct)
+	if !ok || st.NumFields() != 1 {
+		return false
+	}
+	return typeIs(st.Field(0).Type(), "log/slog", "Handler")
 }
